@@ -17,7 +17,8 @@ feature lists and chunk sizes > 0; rows are opaque tokens.
                             `F02_old_witness` shows the previous behaviour);
 * `export_unfiltered`       without filter every row is exported;
 * `export_duplicates_irrelevant`, `export_carries_metadata`, `length_check_makes_selection_safe`;
-* `tsv_rows`                one row per selected event with that event's values.
+* `tsv_rows`                one row per selected event with that event's values;
+  `tsv_chunked_rows`        a chunked table writer (any chunk size) yields the same rows.
 -/
 namespace DclabModel.C02
 open DclabModel.Export
@@ -257,6 +258,26 @@ theorem tsv_rows [Inhabited α] (src : Src α) (mask : List Bool) (feats : List 
   rw [this, transpose_gather _ _ (by simpa using hne)]
   simp only [List.map_map]
   rfl
+
+/-- **chunked TSV writer.** Writing the table in chunks of any size `c > 0` (full chunks of the
+selected indices, then the remainder) yields exactly the rows of `tsv_rows` — the refinement
+obligation of every memory-saving rewrite of `Export.tsv`. -/
+theorem tsv_chunked_rows [Inhabited α] (src : Src α) (mask : List Bool) (feats : List String)
+    (fts : List (Feat α)) (hlk : lookupAll src (tsvFeats feats) = some fts) (hne : fts ≠ [])
+    (hsc : fts.all (fun ft => ft.kind = .scalar) = true)
+    (hr : ∀ ft ∈ fts, ∀ i ∈ indices mask, i < ft.rows.length) (c : Nat) (hc : 0 < c) :
+    tsvRows src true mask feats = some (tsvFeats feats,
+      (tsvChunks c (indices mask) fun j => fts.map fun ft => ft.rows.getD j default).flatten) := by
+  rw [tsv_rows src mask feats fts hlk hne hsc hr]
+  unfold tsvChunks
+  rw [stacksFast_concat c hc]
+
+/-- a writer that decides about the trailing partial chunk from the dataset size loses the last
+selected events when the size is a multiple of the chunk size and the selection is not -/
+theorem tsv_size_test_loses_events :
+    (tsvChunksSizeTest 2 4 [0, 1, 3] (fun j => j)).flatten = [0, 1] ∧
+    (tsvChunks 2 [0, 1, 3] (fun j => j)).flatten = [0, 1, 3] := by
+  decide
 
 /-- an unfiltered TSV export has the full columns -/
 theorem tsv_unfiltered (src : Src α) (mask : List Bool) (feats : List String)
